@@ -218,11 +218,16 @@ class SetV(object):
 
 
 class LitSet(object):
-    """A set literal / set built from statically many (possibly symbolic) members."""
-    __slots__ = ("items",)
+    """A set literal / set built from statically many (possibly symbolic) members; `conds[i]`
+    (python bool / z3 Bool) says whether candidate i is present at all."""
+    __slots__ = ("items", "conds")
 
-    def __init__(self, items):
+    def __init__(self, items, conds=None):
         self.items = tuple(items)
+        self.conds = tuple(conds) if conds is not None else None
+
+    def cond(self, i):
+        return True if self.conds is None else self.conds[i]
 
     def __repr__(self):
         return "LitSet%r" % (self.items,)
